@@ -505,3 +505,67 @@ def _has_walrus(node: Node, name: str) -> bool:
         if isinstance(x, ast.NamedExpr) and isinstance(x.target, ast.Name) and x.target.id == name:
             return True
     return False
+
+
+# ------------------------------------------------------- symbolic returns
+class _Subst(ast.NodeTransformer):
+    def __init__(self, env: Dict[str, ast.AST]):
+        self.env = env
+
+    def visit_Name(self, node: ast.Name) -> ast.AST:
+        if isinstance(node.ctx, ast.Load) and node.id in self.env:
+            return self.env[node.id]
+        return node
+
+
+def _subst(e: ast.AST, env: Dict[str, ast.AST]) -> ast.AST:
+    import copy
+    return ast.fix_missing_locations(_Subst(env).visit(copy.deepcopy(e)))
+
+
+def symbolic_returns(fn: ast.AST, max_paths: int = 256
+                     ) -> List[Tuple[List[Tuple[ast.expr, bool]], Optional[ast.AST], ast.Return]]:
+    """Path-sensitive forward substitution for loop-free functions: for every path
+    ENTRY -> return, the returned expression with all local single-name assignments inlined,
+    and the branch tests (already substituted) taken on the way. Raises AnalysisError on loops
+    or when there are more than ``max_paths`` paths."""
+    cfg = CFG(fn)
+    for n in cfg.nodes:
+        if n.kind in ("while", "for"):
+            raise AnalysisError("symbolic_returns: function has a loop")
+    out: List[Tuple[List[Tuple[ast.expr, bool]], Optional[ast.AST], ast.Return]] = []
+    count = [0]
+
+    def go(nid: int, env: Dict[str, ast.AST], conds: List[Tuple[ast.expr, bool]],
+           seen: Tuple[int, ...]) -> None:
+        if nid in seen or nid in (EXIT, RAISE):
+            return
+        node = cfg.nodes[nid]
+        seen = seen + (nid,)
+        st = node.stmt
+        if node.kind == "stmt" and isinstance(st, ast.Return):
+            count[0] += 1
+            if count[0] > max_paths:
+                raise AnalysisError("symbolic_returns: too many paths")
+            out.append((conds, _subst(st.value, env) if st.value is not None else None, st))
+            return
+        if node.kind == "stmt" and isinstance(st, (ast.Assign, ast.AnnAssign)):
+            tg = st.targets[0] if isinstance(st, ast.Assign) else st.target
+            val = st.value
+            if isinstance(tg, ast.Name) and val is not None and (
+                    not isinstance(st, ast.Assign) or len(st.targets) == 1):
+                env = dict(env)
+                env[tg.id] = _subst(val, env)
+        elif node.kind == "stmt" and isinstance(st, ast.AugAssign) and isinstance(
+                st.target, ast.Name):
+            env = dict(env)
+            cur = env.get(st.target.id, ast.Name(id=st.target.id, ctx=ast.Load()))
+            env[st.target.id] = ast.BinOp(left=cur, op=st.op, right=_subst(st.value, env))
+        for s in sorted(cfg.succ[nid]):
+            lab = cfg.label.get((nid, s))
+            if node.kind == "if" and lab in ("T", "F") and node.expr is not None:
+                go(s, env, conds + [(_subst(node.expr, env), lab == "T")], seen)
+            else:
+                go(s, env, conds, seen)
+    go(ENTRY, {}, [], ())
+    return out
